@@ -149,3 +149,26 @@ def wop(fid, **kw):
 
 def write_ops(history):
     return [op for op in history if op.get('op') == 'write']
+
+
+def canon_modulo_set_order(data):
+    """File content with the order of the non-origin sets of each logical file factored out (set order follows registry
+    insertion order, which no property fixes beyond header -> origins -> other sets -> data)."""
+    from .. import rp66
+    fr = rp66.parse_framing(data or b'')
+    recs, _ = rp66.reassemble(fr)
+    lfs, cur = [], None
+    for r in recs:
+        if r.is_eflr and r.type == 0:
+            cur = {'head': [r.key()], 'origin': [], 'sets': [], 'iflr': []}
+            lfs.append(cur)
+        elif cur is None:
+            cur = {'head': [], 'origin': [], 'sets': [], 'iflr': [r.key()]}
+            lfs.append(cur)
+        elif not r.is_eflr:
+            cur['iflr'].append(r.key())
+        elif r.type == 1 and r.body[1:8] == b'\x06ORIGIN':
+            cur['origin'].append(r.key())
+        else:
+            cur['sets'].append(r.key())
+    return (fr.sul_raw, [(x['head'], x['origin'], sorted(x['sets']), x['iflr']) for x in lfs])
